@@ -13,8 +13,55 @@ def main():
     mod = importlib.import_module('props.' + a.pid)
     if a.replay:
         sys.exit(mod.replay(a.replay))
+    # watchdog on the CPU time of this process: a check that spins (an implementation call that never returns outside the
+    # per-call watchdogs, a model that diverges) still ends with a verdict
+    import signal
+
+    class CheckTimeout(BaseException):
+        pass
+
+    def on_vt(signum, frame):
+        import traceback
+        where = ''.join(traceback.format_stack(frame)[-8:])
+        seen = {}
+        f = frame
+        while f is not None and len(seen) < 6:
+            for k in ('pattern', 'pat', 's', 'sel', 'mk', 'markup'):
+                v = f.f_locals.get(k)
+                if isinstance(v, str) and k not in seen:
+                    seen[k] = v[:300]
+            f = f.f_back
+        raise CheckTimeout(f'no verdict after {limit} s of CPU time; interrupted at:\n{where}\nlocals on the stack: {seen!r}')
+    limit = int(os.environ.get('VERIF_CPU_LIMIT', '900' if a.tier == 'quick' else '36000'))
+    wall = int(os.environ.get('VERIF_WALL_LIMIT', '2400' if a.tier == 'quick' else '50000'))
+
+    def on_wall():
+        # threads that wait for each other use no CPU: a wall-clock limit, enforced from a helper thread
+        import traceback, lib
+        stacks = []
+        for tid, fr in sys._current_frames().items():
+            stacks.append(''.join(traceback.format_stack(fr)[-4:]))
+        ck = lib.CURRENT or lib.Check(a.pid, a.tier, seed)
+        ck.broken.append(f'the check did not finish within {wall} s (threads waiting for each other?); stacks:\n' + '\n--\n'.join(stacks)[-1800:])
+        rc_ = ck.finish(rule='search aborted by the wall-clock watchdog')
+        sys.stdout.flush()
+        os._exit(rc_ or 1)
+    import threading
+    wt = threading.Timer(wall, on_wall)
+    wt.daemon = True
+    wt.start()
+    signal.signal(signal.SIGVTALRM, on_vt)
+    signal.setitimer(signal.ITIMER_VIRTUAL, limit)
     try:
         rc = mod.run(a.tier, seed)
+        signal.setitimer(signal.ITIMER_VIRTUAL, 0)
+    except CheckTimeout as ex:
+        import lib
+        signal.setitimer(signal.ITIMER_VIRTUAL, 0)
+        sys.stderr.write(str(ex))
+        ck = lib.CURRENT or lib.Check(a.pid, a.tier, seed)
+        ck.broken.append('the check did not finish: ' + str(ex)[-1500:])
+        rc = ck.finish(rule='search aborted by the CPU-time watchdog')
     except Exception:
         import traceback, lib
         # the search could not run to the end (the implementation returned something the harness did not expect, or the
